@@ -118,24 +118,34 @@ type subSpec struct {
 	Stay   bool     // the subscriber does not wait for the end of its stream (it stays subscribed)
 	After  string   // the subscriber arrives only after the Subscribe call of this other subscriber has returned
 	Late   bool     // the canceller acts only after the subscriber's own Subscribe call has returned
+	// Deadline > 0: the subscriber's context carries this time-out (context.WithTimeout
+	// in virtual time): it ends when the explorer advances the clock past it, not by a cancel() call
+	Deadline time.Duration
 }
 
+// ends: the subscriber's own context ends during the scenario (explicit cancel or deadline).
+func (s subSpec) ends() bool { return s.Cancel || s.Deadline > 0 }
+
 type scenario struct {
-	Name  string
-	Subs  []subSpec
-	Up    upSpec
-	Idle  time.Duration
-	Ping  bool
-	Ticks []time.Duration
-	Twin  *scenario // the same scenario without the cancellations (nil for a scenario without cancellers)
-	Solo  int       // 1+j: only subscriber j exists (reference run of j on its own)
+	Name       string
+	Subs       []subSpec
+	Up         upSpec
+	Idle       time.Duration
+	Ping       bool
+	Ticks      []time.Duration
+	Twin       *scenario     // the same scenario without the cancellations (nil for a scenario without cancellers)
+	Solo       int           // 1+j: only subscriber j exists (reference run of j on its own)
+	AckTimeout time.Duration // 0: ackTimeoutFor()
+	// Frames (frame-shape part): instead of per-subscription scripts the upstream sends
+	// this sequence of hand-built frames once every subscriber has subscribed
+	Frames []frameSpec
 	// ShareClass (collision pairs): structural class of a sharing finding
 	ShareClass string
 }
 
 func (sc *scenario) hasCancel() bool {
 	for _, s := range sc.Subs {
-		if s.Cancel {
+		if s.ends() {
 			return true
 		}
 	}
@@ -145,13 +155,17 @@ func (sc *scenario) hasCancel() bool {
 // faulty: the upstream behaviour alone can fail or cut a stream (refused, late
 // or missing ack, drop, unanswered or - under an adverse schedule - late pongs).
 func (sc *scenario) faulty() bool {
-	return sc.Up.Refuse || sc.Up.Ack == "late" || sc.Up.Ack == "never" || sc.Up.Drop != 0 || sc.Ping
+	lateCanFail := sc.Up.Ack == "late" && sc.ackTimeoutFor() < time.Minute
+	return sc.Up.Refuse || lateCanFail || sc.Up.Ack == "never" || sc.Up.Drop != 0 || sc.Ping
 }
 
 // ackTimeoutFor: where the upstream acks at once the time-out is out of reach
 // of the explored time advances (a starved ack actor is not an upstream fault
 // this scenario wants to model); the late / never scenarios use the short one.
 func (sc *scenario) ackTimeoutFor() time.Duration {
+	if sc.AckTimeout > 0 {
+		return sc.AckTimeout
+	}
 	if sc.Up.Ack == "" || sc.Up.Ack == "step" {
 		return 100 * time.Second
 	}
@@ -181,6 +195,8 @@ type delivered struct {
 	Kind string // next | error | complete | connerr | unknown
 	Tag  string
 	Text string
+	// raw bytes of the payload as handed to the handler (frame-shape part)
+	Data, Errors, Ext string
 }
 
 type subState struct {
@@ -303,6 +319,9 @@ func (st *subState) handler(in *instance) common.Handler {
 		default:
 			d.Kind = "unknown"
 		}
+		if msg.Payload != nil {
+			d.Data, d.Errors, d.Ext = string(msg.Payload.Data), string(msg.Payload.Errors), string(msg.Payload.Extensions)
+		}
 		st.mu.Lock()
 		st.msgs = append(st.msgs, d)
 		st.mu.Unlock()
@@ -333,7 +352,12 @@ func (sc *scenario) body(s *sched.Sched) *instance {
 	}
 	for i, sp := range sc.Subs {
 		st := &subState{idx: i, spec: sp, opt: optTuples[sp.Opt]}
-		st.ctx, st.cancel = context.WithCancel(context.WithValue(context.Background(), ctxKey{}, i))
+		base := context.WithValue(context.Background(), ctxKey{}, i)
+		if sp.Deadline > 0 {
+			st.ctx, st.cancel = context.WithTimeout(base, sp.Deadline)
+		} else {
+			st.ctx, st.cancel = context.WithCancel(base)
+		}
 		in.subs = append(in.subs, st)
 	}
 	for _, st := range in.subs {
